@@ -4,6 +4,17 @@
 From Coq Require Import List NArith ZArith Lia Bool Arith.
 From AnyTLS Require Import Bytes Cmd Generated Frame Conc ConcInv ConcLin.
 Import ListNotations.
+Arguments push_item : simpl never.
+Arguments wake_pump_closed : simpl never.
+
+Ltac push_closed C' :=
+  match type of C' with
+  | context [closed (push_item ?a ?b ?c)] => let F := fresh "F" in destruct (flags_push a b c) as (_ & _ & F & _); rewrite F in C'
+  end.
+Ltac wake_closed C' :=
+  match type of C' with
+  | context [closed (wake_pump_closed ?a)] => let F := fresh "F" in destruct (flags_wake a) as (_ & _ & F & _); rewrite F in C'
+  end.
 
 (* ---- what a step can do to the pc of ANOTHER task ---- *)
 Definition rel_effect (s s' : state) (w : tid) : Prop :=
@@ -13,7 +24,8 @@ Definition rel_effect (s s' : state) (w : tid) : Prop :=
 
 Definition other_effect (s s' : state) (w : tid) : Prop :=
   rel_effect s s' w
-  \/ (w = rtid /\ pcof s w = PIdle /\ (pcof s' w = PC1 AfterRecv WkPlain \/ pcof s' w = PE0 AfterRecv WkPlain)).
+  \/ (w = rtid /\ pcof s w = PIdle /\ (pcof s' w = PC1 AfterRecv WkPlain \/ pcof s' w = PE0 AfterRecv WkPlain))
+  \/ (pcof s w = PPwait /\ pump_target (pcof s' w)).
 
 Lemma release_ws_others ws : forall s t,
   leaving s t ws -> forall w, w <> t -> rel_effect s (release_ws ws s) w.
@@ -73,23 +85,47 @@ Proof. intros (_ & _ & E). apply oe_same. apply E. Qed.
 
 Lemma oe_after_quiet s s0 s' w : quiet s s0 -> other_effect s0 s' w -> other_effect s s' w.
 Proof.
-  intros (_ & _ & E) [[H|[(k & f & A & B)|(a & k & A & B & C)]]|(A & B & C)].
+  intros (_ & _ & E) [[H|[(k & f & A & B)|(a & k & A & B & C)]]|[(A & B & C)|(A & B)]].
   - apply oe_same. rewrite H. apply E.
   - left; right; left. exists k, f. rewrite <- E. auto.
   - left; right; right. exists a, k. rewrite <- E. auto.
-  - right. rewrite <- E. auto.
+  - right; left. rewrite <- E. auto.
+  - right; right. rewrite <- E. auto.
 Qed.
 
 Lemma oe_then_pcu s s1 s2 t p w :
   other_effect s s1 w -> pc_update s1 s2 t p -> w <> t -> shut s2 = shut s1 -> other_effect s s2 w.
 Proof.
   intros O (_ & _ & _ & E) Hne Sh. specialize (E w Hne).
-  destruct O as [[H|[(k & f & A & B)|(a & k & A & B & C)]]|(A & B & [C|C])].
+  destruct O as [[H|[(k & f & A & B)|(a & k & A & B & C)]]|[(A & B & [C|C])|(A & B)]].
   - apply oe_same. congruence.
   - left; right; left. exists k, f. split; congruence.
   - left; right; right. exists a, k. repeat split; congruence.
-  - right. repeat split; auto. left. congruence.
-  - right. repeat split; auto. right. congruence.
+  - right; left. repeat split; auto. left. congruence.
+  - right; left. repeat split; auto. right. congruence.
+  - right; right. split; [exact A | rewrite E; exact B].
+Qed.
+
+Lemma oe_pump_effect s s' w : pump_effect s s' -> other_effect s s' w.
+Proof.
+  intros [Q|(p & E & q & T & (_ & _ & Ep & Eo))]; [apply oe_of_quiet; exact Q|].
+  destruct (Nat.eq_dec w p) as [->|Hne].
+  - right; right. split; [exact E | rewrite Ep; exact T].
+  - apply oe_same. apply Eo. exact Hne.
+Qed.
+
+(* composition with a step-local effect that follows: the pump's wake-up happens first, inside the same step *)
+Lemma oe_pump_then_same s s1 s' w :
+  pump_effect s s1 -> pcof s' w = pcof s1 w -> other_effect s s' w.
+Proof.
+  intros P E. destruct (oe_pump_effect s s1 w P) as [[H|[(k & f & A & B)|(a & k & A & B & C)]]|[(A & B & C)|(A & B)]].
+  - apply oe_same. congruence.
+  - left; right; left. exists k, f. split; congruence.
+  - exfalso. destruct P as [(_ & _ & Q)|(p & Ep & q & T & (_ & _ & Eq & Eo))].
+    + rewrite Q in B. rewrite A in B. discriminate.
+    + destruct (Nat.eq_dec w p) as [->|Hne]; [congruence|]. rewrite Eo in B by exact Hne. congruence.
+  - right; left. repeat split; auto. destruct C as [C|C]; [left | right]; congruence.
+  - right; right. split; [exact A | rewrite E; exact B].
 Qed.
 
 Lemma oe_enter_close s u a k w : w <> u -> other_effect s (enter_close s u a k) w.
@@ -105,16 +141,18 @@ Proof.
     unfold feed_ev; destruct (negb (ralive s)); try (apply oe_same; reflexivity);
     destruct (pc_is_idle (t_pc (tasks s rtid))) eqn:E; try (apply oe_same; reflexivity);
     assert (pcof s rtid = PIdle) as Ei by (unfold pcof; destruct (t_pc (tasks s rtid)); try discriminate; reflexivity).
+  - eapply oe_after_quiet; [apply quiet_mark|].
+    assert (pcof (mark_state s) rtid = PIdle) as Ei' by (rewrite pcof_mark; exact Ei).
+    destruct (Nat.eq_dec w rtid) as [->|Hne]; [|apply oe_enter_close; exact Hne].
+    unfold enter_close. destruct (closed (mark_state s)).
+    + apply oe_same. rewrite pcof_finish_close_same. symmetry. exact Ei'.
+    + right; left. split; [reflexivity | split; [exact Ei'|]]. left. unfold pcof. cbn. try rewrite upd_same. reflexivity.
   - destruct (Nat.eq_dec w rtid) as [->|Hne]; [|apply oe_enter_close; exact Hne].
     unfold enter_close. destruct (closed s).
     + apply oe_same. rewrite pcof_finish_close_same. symmetry. exact Ei.
-    + right. split; [reflexivity | split; [exact Ei|]]. left. unfold pcof. cbn. try rewrite upd_same. reflexivity.
-  - destruct (Nat.eq_dec w rtid) as [->|Hne]; [|apply oe_enter_close; exact Hne].
-    unfold enter_close. destruct (closed s).
-    + apply oe_same. rewrite pcof_finish_close_same. symmetry. exact Ei.
-    + right. split; [reflexivity | split; [exact Ei|]]. left. unfold pcof. cbn. try rewrite upd_same. reflexivity.
+    + right; left. split; [reflexivity | split; [exact Ei|]]. left. unfold pcof. cbn. try rewrite upd_same. reflexivity.
   - destruct (Nat.eq_dec w rtid) as [->|Hne].
-    + right. split; [reflexivity | split; [exact Ei|]]. right. unfold pcof. cbn. try rewrite upd_same. reflexivity.
+    + right; left. split; [reflexivity | split; [exact Ei|]]. right. unfold pcof. cbn. try rewrite upd_same. reflexivity.
     + apply oe_same. unfold pcof. cbn. rewrite upd_other by exact Hne. reflexivity.
 Qed.
 
@@ -164,10 +202,31 @@ Proof.
       * eapply oe_qp; [exact Q0 | apply pcu_finish | exact Hw].
       * eapply oe_after_quiet; [exact Q0|].
         eapply oe_then_pcu; [apply oe_feed | apply pcu_finish | exact Hw | reflexivity].
+    + (* CSend *)
+      destruct (t_sid (with_prog (tasks s t) rest)); [destruct (t_sclosed (with_prog (tasks s t) rest) || pump_done s)|];
+        inversion H; subst.
+      * eapply oe_qp; [exact Q0 | apply pcu_finish | exact Hw].
+      * eapply oe_after_quiet; [exact Q0|].
+        eapply oe_then_pcu; [apply oe_pump_effect; apply pump_effect_push | apply pcu_finish | exact Hw | reflexivity].
+      * eapply oe_qp; [exact Q0 | apply pcu_finish | exact Hw].
+    + (* CPump *)
+      destruct (pump_owner s) as [p|].
+      * destruct (negb (Nat.eqb p t)); [|destruct (pump_done s); [|destruct (dq s) as [|[u f] q]; [|destruct (closed s)]]];
+          inversion H; subst.
+        -- eapply oe_qp; [exact Q0 | apply pcu_finish | exact Hw].
+        -- eapply oe_qp; [exact Q0 | apply pcu_finish | exact Hw].
+        -- eapply oe_qp; [exact Q0 | apply pcu_set_task | exact Hw].
+        -- eapply oe_qp with (s1 := set_dq s0 q);
+             [eapply quiet_trans; [exact Q0 | apply quiet_set_pump] | eapply pcu_then_quiet; [apply pcu_finish | apply quiet_set_pump] | exact Hw].
+        -- eapply oe_qp with (s1 := set_dq s0 q);
+             [eapply quiet_trans; [exact Q0 | apply quiet_set_pump] | apply pcu_set_task | exact Hw].
+      * inversion H; subst.
+        eapply oe_qp with (s1 := set_pump s0 (dq s) (pushed s) (Some t) (pump_done s));
+          [eapply quiet_trans; [exact Q0 | apply quiet_set_pump] | apply pcu_finish | exact Hw].
   - destruct (closed s); [|destruct (buffering s)]; inversion H; subst.
     + eapply oe_of_pcu; [apply pcu_finish_w | exact Hw].
-    + eapply oe_of_pcu; [apply pcu_set_pc | exact Hw].
-    + eapply oe_of_pcu; [apply pcu_set_pc | exact Hw].
+    + eapply oe_of_pcu; [apply pcu_set_task | exact Hw].
+    + eapply oe_of_pcu; [apply pcu_set_task | exact Hw].
   - inversion H; subst.
     eapply oe_qp with (s1 := set_queue s (pending s ++ [(t, f)]) (lin s ++ [(t, f)])); [qrl | apply pcu_finish_w | exact Hw].
   - destruct (wr s); inversion H; subst; apply oe_same; unfold pcof; cbn; rewrite upd_other by exact Hw; reflexivity.
@@ -185,9 +244,9 @@ Proof.
       eapply oe_then_pcu with (s1 := release s1); [apply oe_rel; exact R | apply pcu_finish_w | exact Hw |].
       destruct k; reflexivity.
   - inversion H; subst. apply oe_enter_close. exact Hw.
-  - inversion H; subst.
-    eapply oe_qp with (s1 := set_table (set_tasks s (drain (table s) (tasks s))) (next_sid s) []); [| apply pcu_set_pc | exact Hw].
-    unfold quiet. split; [reflexivity | split; [reflexivity|]]. intros t'. unfold pcof. cbn. apply drain_pc.
+  - cbv zeta in H. inversion H; subst. clear H.
+    eapply oe_pump_then_same; [apply pump_effect_wake|].
+    unfold pcof. cbn. rewrite upd_other by exact Hw. apply drain_pc.
   - destruct (wr s); inversion H; subst.
     + apply oe_same. unfold pcof. cbn. rewrite upd_other by exact Hw. reflexivity.
     + eapply oe_qp with (s1 := set_shut s); [qrl | apply pcu_finish_close | exact Hw].
@@ -195,6 +254,7 @@ Proof.
   - inversion H; subst.
     eapply oe_qp with (s1 := set_table s (next_sid s + 1)%N (table s ++ [(next_sid s, t)])); [qrl | apply pcu_set_task | exact Hw].
   - inversion H; subst. eapply oe_of_pcu; [apply pcu_set_task | exact Hw].
+  - discriminate.
 Qed.
 
 (* ---- no task is blocked by the session's own locks ---- *)
@@ -214,9 +274,13 @@ Qed.
 
 Ltac en_tac Epc := right; right; left; unfold step; rewrite Epc.
 
+(* the pump parked in recv() of the outbound data channel: it waits for the local application's next chunk (or for
+   the close notification), not for anything the session holds *)
+Definition awaits_app (s : state) (t : tid) : Prop := pcof s t = PPwait.
+
 Theorem no_deadlock s t :
   Inv s ->
-  finished s t \/ awaits_peer s t \/ step s t <> None \/
+  finished s t \/ (awaits_peer s t \/ awaits_app s t) \/ step s t <> None \/
   (waits_pc (pcof s t) = true /\ exists h, wr s = Some h /\ step s h <> None).
 Proof.
   intros HI. destruct (t_pc (tasks s t)) eqn:Epc.
@@ -228,13 +292,13 @@ Proof.
       * en_tac Epc. rewrite Eprog. unfold start_call. destruct (closed s); discriminate.
       * destruct (t_sid (tasks s t)) eqn:Es; [destruct (t_verdict (tasks s t)) eqn:Ev|].
         -- en_tac Epc. rewrite Eprog. unfold start_call. cbn [t_sid t_verdict with_prog]. rewrite Es, Ev. discriminate.
-        -- right; left. split; [unfold pcof; exact Epc|]. exists rest. left. rewrite Es. repeat split; auto. discriminate.
+        -- right; left; left. split; [unfold pcof; exact Epc|]. exists rest. left. rewrite Es. repeat split; auto. discriminate.
         -- en_tac Epc. rewrite Eprog. unfold start_call. cbn [t_sid t_verdict with_prog]. rewrite Es. discriminate.
       * en_tac Epc. rewrite Eprog. unfold start_call. cbn [t_sid t_verdict with_prog].
         destruct (t_sid (tasks s t)); [destruct (t_verdict (tasks s t))|]; discriminate.
       * destruct (t_sid (tasks s t)) eqn:Es; [destruct (t_rq (tasks s t)) eqn:Eq; [destruct (t_rclosed (tasks s t)) eqn:Ec|]|].
         -- en_tac Epc. rewrite Eprog. unfold start_call. cbn [t_sid t_rq t_rclosed with_prog]. rewrite Es, Eq, Ec. discriminate.
-        -- right; left. split; [unfold pcof; exact Epc|]. exists rest. right. rewrite Es. repeat split; auto. discriminate.
+        -- right; left; left. split; [unfold pcof; exact Epc|]. exists rest. right. rewrite Es. repeat split; auto. discriminate.
         -- en_tac Epc. rewrite Eprog. unfold start_call. cbn [t_sid t_rq t_rclosed with_prog]. rewrite Es, Eq. discriminate.
         -- en_tac Epc. rewrite Eprog. unfold start_call. cbn [t_sid t_rq t_rclosed with_prog]. rewrite Es. discriminate.
       * en_tac Epc. rewrite Eprog. discriminate.
@@ -242,6 +306,11 @@ Proof.
       * en_tac Epc. rewrite Eprog. discriminate.
       * en_tac Epc. rewrite Eprog. discriminate.
       * en_tac Epc. rewrite Eprog. unfold start_call. destruct (Nat.eqb t rtid); discriminate.
+      * en_tac Epc. rewrite Eprog. unfold start_call. cbn [t_sid t_sclosed with_prog].
+        destruct (t_sid (tasks s t)); [destruct (t_sclosed (tasks s t) || pump_done s)|]; discriminate.
+      * en_tac Epc. rewrite Eprog. unfold start_call.
+        destruct (pump_owner s); [destruct (negb (Nat.eqb t0 t)); [|destruct (pump_done s); [|destruct (dq s) as [|[u f] q]; [|destruct (closed s)]]]|];
+          discriminate.
   - en_tac Epc. destruct (closed s); [|destruct (buffering s)]; discriminate.
   - en_tac Epc. discriminate.
   - en_tac Epc. destruct (wr s); discriminate.
@@ -264,6 +333,7 @@ Proof.
       rewrite Hn in Hi. exact Hi.
   - en_tac Epc. discriminate.
   - en_tac Epc. discriminate.
+  - right; left; right. unfold awaits_app, pcof. exact Epc.
 Qed.
 
 (* ---- the drain releases every registered stream ---- *)
@@ -280,9 +350,9 @@ Lemma drain_keeps tb : forall ts u,
   t_sid (drain tb ts u) = t_sid (ts u) /\ t_prog (drain tb ts u) = t_prog (ts u).
 Proof.
   induction tb as [|[sid o] tb IH]; intros ts u; cbn [drain]; [repeat split; auto|].
-  destruct (IH (upd ts o (with_rq (with_verdict (ts o) match t_verdict (ts o) with
+  destruct (IH (upd ts o (with_sclosed (with_rq (with_verdict (ts o) match t_verdict (ts o) with
                                                         | Some r => Some r | None => Some ResClosed end)
-                                  (t_rq (ts o)) true)) u) as (A & B & C & D).
+                                  (t_rq (ts o)) true))) u) as (A & B & C & D).
   destruct (Nat.eq_dec u o) as [->|Hne].
   - rewrite upd_same in A, B, C, D. cbn in A, B, C, D. repeat split; auto.
     intros H. apply B. destruct (t_verdict (ts o)); [discriminate | contradiction].
@@ -296,9 +366,9 @@ Proof.
   induction tb as [|[sid' o'] tb IH]; intros ts sid o Hin; [destruct Hin|].
   cbn [drain]. destruct Hin as [E|Hin].
   - inversion E; subst.
-    set (ts1 := upd ts o (with_rq (with_verdict (ts o) match t_verdict (ts o) with
+    set (ts1 := upd ts o (with_sclosed (with_rq (with_verdict (ts o) match t_verdict (ts o) with
                                                         | Some r => Some r | None => Some ResClosed end)
-                                  (t_rq (ts o)) true)).
+                                  (t_rq (ts o)) true))).
     destruct (drain_keeps tb ts1 o) as (A & B & _).
     split.
     + apply A. unfold ts1. rewrite upd_same. reflexivity.
@@ -313,9 +383,9 @@ Theorem close_drain_step s t a k s' :
   forall sid o, In (sid, o) (table s) -> o <> t ->
     t_rclosed (tasks s' o) = true /\ t_verdict (tasks s' o) <> None.
 Proof.
-  intros Epc H. unfold step in H. unfold pcof in Epc. rewrite Epc in H. inversion H; subst. cbn [table set_pc set_task set_tasks set_table].
+  intros Epc H. unfold step in H. unfold pcof in Epc. rewrite Epc in H. cbv zeta in H. inversion H; subst. cbn [table set_pc set_task set_tasks set_table].
   split; [reflexivity|]. intros sid o Hin Hne. cbn. rewrite upd_other by exact Hne.
-  eapply drain_releases. exact Hin.
+  eapply drain_releases. destruct (flags_wake s) as (_ & _ & _ & T & _). rewrite T. exact Hin.
 Qed.
 
 (* ---- every later attempt fails ---- *)
@@ -377,7 +447,8 @@ Proof.
     repeat match goal with
            | |- context [match ?x with _ => _ end] => destruct x eqn:?
            end; try (left; reflexivity);
-    unfold enter_close; destruct (closed s) eqn:Ec; try (left; rewrite closed_finish_close; exact Ec);
+    unfold enter_close; change (closed (mark_state s)) with (closed s);
+    destruct (closed s) eqn:Ec; try (left; rewrite closed_finish_close; exact Ec);
     right; (split; [reflexivity | split; [reflexivity | unfold pcof; cbn; reflexivity]]).
 Qed.
 
@@ -402,6 +473,7 @@ Proof.
       * right. apply Nat.eqb_neq in Heqb. split; [exact Heqb|].
         unfold pcof. cbn. rewrite upd_other by (intros X; apply Heqb; symmetry; exact X).
         unfold pcof in E. rewrite E. reflexivity.
+    + push_closed C'. cbn in C'. congruence.
   - rewrite C in H. destruct (buffering s); inversion H; subst; cbn in C'; congruence.
   - inversion H; subst. rewrite closed_finish_w in C'. cbn in C'. congruence.
   - destruct (wr s); inversion H; subst; cbn in C'; congruence.
@@ -415,12 +487,13 @@ Proof.
       rewrite closed_finish_w in C'. unfold release in C'.
       destruct (release_ws_closed (waiters s1) s1) as [A _]. rewrite A in C'. cbn in C'. congruence.
   - inversion H; subst. left. unfold enter_close. rewrite C. unfold pcof. cbn. rewrite upd_same. reflexivity.
-  - inversion H; subst. cbn in C'. congruence.
+  - cbv zeta in H. inversion H; subst. cbn in C'. wake_closed C'. congruence.
   - destruct (wr s); inversion H; subst; [cbn in C'; congruence|].
     rewrite closed_finish_close in C'. cbn in C'. congruence.
   - discriminate.
   - inversion H; subst. cbn in C'. congruence.
   - inversion H; subst. cbn in C'. congruence.
+  - discriminate.
 Qed.
 
 Lemma step_self_in_close s t s' :
@@ -444,10 +517,11 @@ Proof.
     + left. apply (proj2 (step_mono s t s' H)). exact Sh.
     + destruct (Nat.eq_dec x t) as [->|Hne].
       * destruct (step_self_in_close s t s' H Hx) as [A|A]; [right; exists t; exact A | left; exact A].
-      * destruct (step_others s t s' HI H x Hne) as [[E|[(k & f & A & _)|(a & k & A & B & Sh)]]|(_ & A & _)].
+      * destruct (step_others s t s' HI H x Hne) as [[E|[(k & f & A & _)|(a & k & A & B & Sh)]]|[(_ & A & _)|(A & _)]].
         -- right. exists x. rewrite E. exact Hx.
         -- rewrite A in Hx. discriminate.
         -- left. exact Sh.
+        -- rewrite A in Hx. discriminate.
         -- rewrite A in Hx. discriminate.
   - destruct (step_closed_by s t s' H C C') as [A|[_ A]]; right; eauto.
 Qed.
@@ -467,7 +541,8 @@ Proof.
     repeat match goal with
            | |- context [match ?x with _ => _ end] => destruct x eqn:?
            end;
-    try (left; reflexivity); try (right; eexists; reflexivity); left; apply table_enter_close.
+    try (left; reflexivity); try (right; eexists; reflexivity); left;
+    first [apply table_enter_close | apply (table_enter_close (mark_state s))].
 Qed.
 
 Definition table_effect (s s' : state) (t : tid) : Prop :=
@@ -486,6 +561,7 @@ Proof.
              end; inversion H; subst; try (left; reflexivity).
     + left. apply (table_enter_close s0).
     + destruct (table_feed s0 ev) as [A|[o A]]; [left; exact A | right; right; left; exists o; exact A].
+    + left. match goal with |- context [push_item ?a ?b ?c] => destruct (flags_push a b c) as (_ & _ & _ & F) end. exact F.
   - destruct (closed s); [|destruct (buffering s)]; inversion H; subst; left; [apply table_finish_w | reflexivity | reflexivity].
   - inversion H; subst. left. rewrite table_finish_w. reflexivity.
   - destruct (wr s); inversion H; subst; left; reflexivity.
@@ -502,6 +578,7 @@ Proof.
   - discriminate.
   - inversion H; subst. right; right; right. split; [unfold pcof; exact Epc | reflexivity].
   - inversion H; subst. left. reflexivity.
+  - discriminate.
 Qed.
 
 Lemma in_remove_owner_inv tb e o : In e (remove_owner tb o) -> In e tb.
@@ -538,6 +615,7 @@ Proof.
       * right. apply Nat.eqb_neq in Heqb. split; [exact Heqb|].
         unfold pcof. cbn. rewrite upd_other by (intros X; apply Heqb; symmetry; exact X).
         unfold pcof in E. rewrite E. reflexivity.
+    + push_closed C'. cbn in C'. congruence.
   - rewrite C in H. destruct (buffering s); inversion H; subst; cbn in C'; congruence.
   - inversion H; subst. rewrite closed_finish_w in C'. cbn in C'. congruence.
   - destruct (wr s); inversion H; subst; cbn in C'; congruence.
@@ -551,12 +629,13 @@ Proof.
       rewrite closed_finish_w in C'. unfold release in C'.
       destruct (release_ws_closed (waiters s1) s1) as [A _]. rewrite A in C'. cbn in C'. congruence.
   - inversion H; subst. left. unfold enter_close. rewrite C. unfold pcof. cbn. rewrite upd_same. reflexivity.
-  - inversion H; subst. cbn in C'. congruence.
+  - cbv zeta in H. inversion H; subst. cbn in C'. wake_closed C'. congruence.
   - destruct (wr s); inversion H; subst; [cbn in C'; congruence|].
     rewrite closed_finish_close in C'. cbn in C'. congruence.
   - discriminate.
   - inversion H; subst. cbn in C'. congruence.
   - inversion H; subst. cbn in C'. congruence.
+  - discriminate.
 Qed.
 
 Lemma closed_mono s t s' : step s t = Some s' -> closed s = true -> closed s' = true.
@@ -575,6 +654,7 @@ Proof.
     + destruct (closed_feed s0 ev) as [E|(E & _)].
       * change (closed (feed_ev s0 ev) = false) in C'. rewrite E in C'. change (closed s0) with (closed s) in C'. congruence.
       * change (closed s0) with (closed s) in E. congruence.
+    + push_closed C'. cbn in C'. congruence.
   - rewrite C in H. inversion H; subst. rewrite closed_finish_w in C'. congruence.
   - inversion H; subst. rewrite closed_finish_w in C'. cbn in C'. congruence.
   - destruct (wr s); inversion H; subst; cbn in C'; congruence.
@@ -588,12 +668,13 @@ Proof.
       rewrite closed_finish_w in C'. unfold release in C'.
       destruct (release_ws_closed (waiters s1) s1) as [A _]. rewrite A in C'. cbn in C'. congruence.
   - inversion H; subst. unfold enter_close in C'. rewrite C, closed_finish_close in C'. congruence.
-  - inversion H; subst. cbn in C'. congruence.
+  - cbv zeta in H. inversion H; subst. cbn in C'. wake_closed C'. congruence.
   - destruct (wr s); inversion H; subst; [cbn in C'; congruence|].
     rewrite closed_finish_close in C'. cbn in C'. congruence.
   - discriminate.
   - inversion H; subst. cbn in C'. congruence.
   - inversion H; subst. cbn in C'. congruence.
+  - discriminate.
 Qed.
 
 (* ---- every reader is released: a stream handle is either still registered or its queue is closed ---- *)
@@ -666,6 +747,18 @@ Proof.
   apply negb_true_iff. apply Nat.eqb_neq. exact Hne.
 Qed.
 
+Lemma mark_keeps tb : forall ts u,
+  t_sid (mark_sclosed tb ts u) = t_sid (ts u) /\ t_rclosed (mark_sclosed tb ts u) = t_rclosed (ts u) /\
+  t_verdict (mark_sclosed tb ts u) = t_verdict (ts u) /\ t_prog (mark_sclosed tb ts u) = t_prog (ts u) /\
+  t_sub (mark_sclosed tb ts u) = t_sub (ts u) /\ t_res (mark_sclosed tb ts u) = t_res (ts u).
+Proof.
+  induction tb as [|[sid o] tb IH]; intros ts u; cbn [mark_sclosed]; [repeat split; reflexivity|].
+  destruct (IH (upd ts o (with_sclosed (ts o))) u) as (A & B & C & D & E & F).
+  unfold upd in *. destruct (Nat.eqb u o) eqn:Eq; [apply Nat.eqb_eq in Eq; subst|]; repeat split; assumption.
+Qed.
+Lemma ks_mark s u : keeps_stream (tasks s u) (tasks (mark_state s) u).
+Proof. destruct (mark_keeps (table s) (tasks s) u) as (A & B & _). split; [left; exact A | intros H; cbn; rewrite B; exact H]. Qed.
+
 Lemma reader_ok_feed s ev : reader_ok s -> reader_ok (feed_ev s ev).
 Proof.
   intros R. unfold feed_ev. destruct (negb (ralive s)); [exact R|].
@@ -681,12 +774,31 @@ Proof.
     + right. rewrite upd_same. reflexivity.
     + rewrite upd_other in * by exact Hne. destruct (R u sid H) as [A|A]; [left; apply in_remove_owner; assumption | right; exact A].
   - destruct (pc_is_idle (t_pc (tasks s rtid))); [|exact R].
-    eapply reader_ok_keep; [exact R | apply table_enter_close | intros u; apply ks_enter_close].
+    eapply reader_ok_keep; [exact R | apply (table_enter_close (mark_state s)) |
+                            intros u; eapply ks_trans; [apply ks_mark | apply ks_enter_close]].
   - destruct (pc_is_idle (t_pc (tasks s rtid))); [|exact R].
     eapply reader_ok_keep; [exact R | apply table_enter_close | intros u; apply ks_enter_close].
   - destruct (pc_is_idle (t_pc (tasks s rtid))); [|exact R].
     eapply reader_ok_keep; [exact R | reflexivity | intros u; apply ks_set_pc].
 Qed.
+
+Lemma ks_push s t f u : keeps_stream (tasks s u) (tasks (push_item s t f) u).
+Proof.
+  unfold push_item. set (s1 := set_pump s (dq s) (pushed s ++ [(t, f)]) (pump_owner s) (pump_done s)).
+  destruct (pump_owner s) as [p|]; [|apply ks_refl].
+  destruct (is_ppwait (t_pc (tasks s p))); [destruct (closed s)|]; try apply ks_refl.
+  - apply (ks_finish s1 p ResClosed u).
+  - apply (ks_set_task s1 p _ u). split; auto.
+Qed.
+Lemma ks_wake s u : keeps_stream (tasks s u) (tasks (wake_pump_closed s) u).
+Proof.
+  unfold wake_pump_closed. destruct (pump_owner s) as [p|]; [|apply ks_refl].
+  destruct (is_ppwait (t_pc (tasks s p))); [|apply ks_refl]. apply (ks_finish s p ResClosed u).
+Qed.
+Lemma table_push s t f : table (push_item s t f) = table s.
+Proof. apply (flags_push s t f). Qed.
+Lemma table_wake s : table (wake_pump_closed s) = table s.
+Proof. apply (flags_wake s). Qed.
 
 Lemma reader_ok_drain s t p :
   reader_ok s ->
@@ -729,10 +841,16 @@ Proof.
     + eapply reader_ok_keep; [exact R0 | reflexivity | intros u; apply (ks_finish (set_buffering s0 true))].
     + eapply reader_ok_keep; [exact R0 | reflexivity | intros u; apply (ks_finish (set_failing s0))].
     + eapply reader_ok_keep; [apply reader_ok_feed; exact R0 | reflexivity | intros u; apply ks_finish].
+    + (* CSend *)
+      eapply reader_ok_keep; [exact R0 | apply (table_push s0) | intros u; eapply ks_trans; [apply ks_push | apply ks_finish]].
+    + match goal with |- reader_ok (set_pump_done (finish ?X t ResClosed)) =>
+        eapply reader_ok_keep; [exact R0 | reflexivity | intros u; apply (ks_finish X t ResClosed u)] end.
+    + match goal with |- reader_ok (finish ?X t ?r) =>
+        eapply reader_ok_keep; [exact R0 | reflexivity | intros u; apply (ks_finish X t r u)] end.
   - destruct (closed s); [|destruct (buffering s)]; inversion H; subst.
     + eapply reader_ok_keep; [exact R | apply table_finish_w | intros u; apply ks_finish_w].
-    + eapply reader_ok_keep; [exact R | reflexivity | intros u; apply ks_set_pc].
-    + eapply reader_ok_keep; [exact R | reflexivity | intros u; apply ks_set_pc].
+    + eapply reader_ok_keep; [exact R | reflexivity | intros u; apply ks_set_task; destruct k; split; auto].
+    + eapply reader_ok_keep; [exact R | reflexivity | intros u; apply ks_set_task; destruct k; split; auto].
   - inversion H; subst.
     eapply reader_ok_keep; [exact R | rewrite table_finish_w; reflexivity | intros u; apply (ks_finish_w (set_queue s _ _))].
   - destruct (wr s); inversion H; subst;
@@ -747,7 +865,8 @@ Proof.
       eapply reader_ok_keep; [exact R | | intros u; eapply ks_trans; [apply (ks_release_ws (waiters s1) s1 u) | apply ks_finish_w]].
       rewrite table_finish_w. unfold release. destruct (release_ws_closed (waiters s1) s1) as [_ B]. exact B.
   - inversion H; subst. eapply reader_ok_keep; [exact R | apply table_enter_close | intros u; apply ks_enter_close].
-  - inversion H; subst. apply reader_ok_drain. exact R.
+  - cbv zeta in H. inversion H; subst. apply reader_ok_drain.
+    eapply reader_ok_keep; [exact R | apply table_wake | intros u; apply ks_wake].
   - destruct (wr s); inversion H; subst.
     + eapply reader_ok_keep; [exact R | reflexivity | intros u; apply (ks_set_pc (set_lock s _ _))].
     + eapply reader_ok_keep; [exact R | rewrite table_finish_close; reflexivity | intros u; apply (ks_finish_close (set_shut s))].
@@ -761,6 +880,7 @@ Proof.
       destruct (R u sid H) as [A|A]; [left; apply in_or_app; left; exact A | right].
       cbn. rewrite upd_other by exact Hne. exact A.
   - inversion H; subst. eapply reader_ok_keep; [exact R | reflexivity | intros u; apply ks_set_task; split; auto].
+  - discriminate.
 Qed.
 
 Lemma reader_ok_init progs buf pend : reader_ok (init progs buf pend).
@@ -775,7 +895,8 @@ Proof.
            | |- context [match ?x with _ => _ end] => destruct x eqn:?
            end;
     try apply ks_refl; try apply ks_enter_close; try apply ks_set_pc;
-    try (apply ks_set_task; split; auto; fail).
+    try (apply ks_set_task; split; auto; fail);
+    try (eapply ks_trans; [apply ks_mark | apply ks_enter_close]).
 Qed.
 
 Lemma step_keeps s t s' u :
@@ -800,8 +921,11 @@ Proof.
     + apply (ks_finish (set_buffering s0 true)).
     + apply (ks_finish (set_failing s0)).
     + eapply ks_trans; [apply ks_feed | apply ks_finish].
+    + eapply ks_trans; [apply ks_push | apply ks_finish].
+    + match goal with |- keeps_stream _ (tasks (set_pump_done (finish ?X t ResClosed)) u) => apply (ks_finish X t ResClosed u) end.
+    + match goal with |- keeps_stream _ (tasks (finish ?X t ?r) u) => apply (ks_finish X t r u) end.
   - destruct (closed s); [|destruct (buffering s)]; inversion H; subst;
-      [apply ks_finish_w | apply ks_set_pc | apply ks_set_pc].
+      [apply ks_finish_w | apply ks_set_task; destruct k; split; auto | apply ks_set_task; destruct k; split; auto].
   - inversion H; subst. apply (ks_finish_w (set_queue s (pending s ++ [(t, f)]) (lin s ++ [(t, f)]))).
   - destruct (wr s); inversion H; subst; apply (ks_set_pc (set_lock s _ _)).
   - discriminate.
@@ -812,16 +936,18 @@ Proof.
     + set (s1 := set_wire s (pkt s + 1)%N (wire s ++ [((pkt s + 1)%N, held)])).
       eapply ks_trans; [apply (ks_release_ws (waiters s1) s1 u) | apply ks_finish_w].
   - inversion H; subst. apply ks_enter_close.
-  - inversion H; subst.
-    eapply ks_trans; [|apply (ks_set_pc (set_table (set_tasks s (drain (table s) (tasks s))) (next_sid s) []) t (PC2 a k) u)].
-    change (keeps_stream (tasks s u) (drain (table s) (tasks s) u)).
-    destruct (drain_keeps (table s) (tasks s) u) as (A & _ & B & _). split; [left; exact B | exact A].
+  - cbv zeta in H. inversion H; subst. set (s1 := wake_pump_closed s).
+    eapply ks_trans; [apply ks_wake|]. fold s1.
+    eapply ks_trans; [|apply (ks_set_pc (set_table (set_tasks s1 (drain (table s1) (tasks s1))) (next_sid s1) []) t (PC2 a k) u)].
+    change (keeps_stream (tasks s1 u) (drain (table s1) (tasks s1) u)).
+    destruct (drain_keeps (table s1) (tasks s1) u) as (A & _ & B & _). split; [left; exact B | exact A].
   - destruct (wr s); inversion H; subst; [apply (ks_set_pc (set_lock s _ _)) | apply (ks_finish_close (set_shut s))].
   - discriminate.
   - inversion H; subst. destruct (Nat.eq_dec u t) as [->|Hne].
     + exfalso. apply NP; [reflexivity | unfold pcof; exact Epc].
     + cbn. rewrite upd_other by exact Hne. apply ks_refl.
   - inversion H; subst. apply ks_set_task. split; auto.
+  - discriminate.
 Qed.
 
 (* ---- the pc of the stepping task: PO0 is only ever entered from PIdle on an open session ---- *)
@@ -862,6 +988,7 @@ Proof.
   - discriminate.
   - inversion H; subst. unfold pcof; cbn; rewrite upd_same; discriminate.
   - inversion H; subst. unfold pcof; cbn; rewrite upd_same; discriminate.
+  - discriminate.
 Qed.
 
 (* ---- the window of open_stream: the closed flag is examined BEFORE the id is allocated and the stream
@@ -897,11 +1024,11 @@ Proof.
   pose proof (step_others s t s' HI H u Hne) as O.
   destruct L as [W|[Sn Np]].
   - left. assert (pcof s' u = pcof s u) as E; [|rewrite E; exact W].
-    destruct O as [[E|[(k & f & A & _)|(a & k & A & _)]]|(_ & A & _)]; [exact E | | |];
+    destruct O as [[E|[(k & f & A & _)|(a & k & A & _)]]|[(_ & A & _)|(A & _)]]; [exact E | | | |];
       destruct W as [W|W]; rewrite W in A; discriminate.
   - right. split.
     + destruct (step_keeps s t s' u H (fun E => False_ind _ (Hne E))) as [[E|E] _]; [rewrite E; exact Sn | exact E].
-    + intros P. destruct O as [[E|[(k & f & _ & B)|(a & k & _ & B & _)]]|(_ & _ & [B|B])];
+    + intros P. destruct O as [[E|[(k & f & _ & B)|(a & k & _ & B & _)]]|[(_ & _ & [B|B])|(_ & [B|[f B]])]];
         try (rewrite B in P; discriminate).
       apply Np. rewrite <- E. exact P.
 Qed.
@@ -914,8 +1041,9 @@ Proof.
       * right. unfold pcof in Hx. destruct (t_pc (tasks s t)) eqn:Epc; try discriminate.
         destruct (close_drain_step s t a k s' ltac:(unfold pcof; exact Epc) H) as [E _].
         rewrite E. intros sid u [].
-      * left. destruct (step_others s t s' HI H x Hne) as [[E|[(k & f & A & _)|(a & k & A & _)]]|(_ & A & _)].
+      * left. destruct (step_others s t s' HI H x Hne) as [[E|[(k & f & A & _)|(a & k & A & _)]]|[(_ & A & _)|(A & _)]].
         -- exists x. rewrite E. exact Hx.
+        -- rewrite A in Hx. discriminate.
         -- rewrite A in Hx. discriminate.
         -- rewrite A in Hx. discriminate.
         -- rewrite A in Hx. discriminate.
